@@ -1,8 +1,8 @@
 package main
 
 import (
-	"regexp"
 	"fmt"
+	"regexp"
 	"strings"
 
 	"golang.org/x/tools/go/ssa"
@@ -207,36 +207,43 @@ func c02Literals(p *Prog, c *Check) {
 		return
 	}
 	c.Analysed(shortFn(fn))
-	fi := p.Info(fn)
 	n := 0
-	for _, b := range fn.Blocks {
-		for _, in := range b.Instrs {
-			mu, ok := in.(*ssa.MapUpdate)
-			if !ok {
-				continue
+	// the per-keyper-set identity map is filled in createTriggers… or in a helper of the package
+	for _, fn := range p.Funcs {
+		if relPkg(fnPkgPath(fn)) != "keyperimpl/shutterservice" || isTestScaffold(fn) {
+			continue
+		}
+		fi := p.Info(fn)
+		for _, b := range fn.Blocks {
+			for _, in := range b.Instrs {
+				mu, ok := in.(*ssa.MapUpdate)
+				if !ok {
+					continue
+				}
+				// only the identity map (value type slice of IdentityPreimage)
+				if !strings.Contains(mu.Map.Type().String(), "IdentityPreimage") {
+					continue
+				}
+				call, isApp := mu.Value.(*ssa.Call)
+				if !isApp {
+					continue // the make(...) initialisation
+				}
+				vals, ok := appendedValues(call)
+				if !ok || len(vals) != 1 {
+					continue
+				}
+				n++
+				key := fmt.Sprintf("createTriggers:collect#%d", n)
+				bnd := Binds{"k": fi.T(mu.Key)}
+				if !ParsePat("$ev.Eon").Match(fi.T(mu.Key), bnd) || !ParsePat("$ev.Identity").Match(fi.T(vals[0]), bnd) {
+					c.Fail(rule, key, p.siteOf(mu), shortFn(fn), "identityPreimages[event.Eon] = append(…, event.Identity)", "identity and keyper-set key are not taken from the same event: key="+fi.T(mu.Key).s+" value="+fi.T(vals[0]).s)
+					continue
+				}
+				c.Analysed(shortFn(fn))
+				c.Guard(p, rule, key, mu, "identityPreimages[event.Eon] = append(…, event.Identity)", bnd,
+					"resolveDecryptableEon(_, _, _, $ev.Eon)#1 == true",
+					"resolveDecryptableEon(_, _, _, $ev.Eon)#2 == nil")
 			}
-			// only the identity map (value type slice of IdentityPreimage)
-			if !strings.Contains(mu.Map.Type().String(), "IdentityPreimage") {
-				continue
-			}
-			call, isApp := mu.Value.(*ssa.Call)
-			if !isApp {
-				continue // the make(...) initialisation
-			}
-			vals, ok := appendedValues(call)
-			if !ok || len(vals) != 1 {
-				continue
-			}
-			n++
-			key := fmt.Sprintf("createTriggers:collect#%d", n)
-			bnd := Binds{"k": fi.T(mu.Key)}
-			if !ParsePat("$ev.Eon").Match(fi.T(mu.Key), bnd) || !ParsePat("$ev.Identity").Match(fi.T(vals[0]), bnd) {
-				c.Fail(rule, key, p.siteOf(mu), shortFn(fn), "identityPreimages[event.Eon] = append(…, event.Identity)", "identity and keyper-set key are not taken from the same event: key="+fi.T(mu.Key).s+" value="+fi.T(vals[0]).s)
-				continue
-			}
-			c.Guard(p, rule, key, mu, "identityPreimages[event.Eon] = append(…, event.Identity)", bnd,
-				"resolveDecryptableEon(_, _, _, $ev.Eon)#1 == true",
-				"resolveDecryptableEon(_, _, _, $ev.Eon)#2 == nil")
 		}
 	}
 	c.Floor(rule, n, 1)
@@ -265,7 +272,7 @@ func c02Literals(p *Prog, c *Check) {
 			}
 		}
 	}
-	c.Floor(rule+".sorted", n2, 2)
+	c.Floor(rule+".sorted", n2, 1)
 
 	// prepareEventBasedTriggers: the literal is built under decryptable == true for the range key, from that key's rows
 	ef, err := p.Func("keyperimpl/shutterservice.Keyper.prepareEventBasedTriggers")
